@@ -685,7 +685,10 @@ func (p *parser) readGpos4() *gtab.LookupTable {
 		if !p.optional(itemOr) {
 			break
 		}
-		p.optional(itemEOL)
+		// ExplainGpos starts every mark and base entry on a new line, so the
+		// separator is followed by an empty line.
+		for p.optional(itemEOL) {
+		}
 	}
 
 	return lookup
